@@ -130,7 +130,19 @@ def safe(pid, fn):
     """Wrap a case function: an exception escaping the oracle while it drives the library is
     reported as a violation of kind 'crash' (it reproduces on replay like any other), instead of
     killing the exploration.  On the unchanged tree no case may crash."""
+    limit = float(os.environ.get("VERIF_CASE_TIMEOUT", "120"))
+
+    def on_alarm(signum, frame):
+        raise CaseTimeout("no result within %.0f s (non-termination?)" % limit)
+
     def wrapped(params):
+        import signal
+        old = None
+        try:
+            old = signal.signal(signal.SIGALRM, on_alarm)
+            signal.setitimer(signal.ITIMER_REAL, limit)
+        except ValueError:      # not in the main thread of the process: no watchdog
+            old = None
         try:
             return fn(params)
         except Exception as e:  # noqa
@@ -139,8 +151,16 @@ def safe(pid, fn):
             return [("%s:crash:%s" % (pid, digest(params)),
                      "case raised %s: %s (at %s) on %s" % (type(e).__name__, str(e)[:200], where,
                                                          json.dumps(jsonable(params))[:300]))]
+        finally:
+            if old is not None:
+                signal.setitimer(signal.ITIMER_REAL, 0)
+                signal.signal(signal.SIGALRM, old)
     wrapped.__name__ = getattr(fn, "__name__", "case")
     return wrapped
+
+
+class CaseTimeout(Exception):
+    """A single case exceeded its wall-clock budget."""
 
 
 class HarnessError(Exception):
@@ -200,6 +220,9 @@ class Ctx(Part):
                 vs[0]["what"] += ("  [HISTORY-DEPENDENT: did not reproduce when replayed alone "
                                   "(got %r); hidden state between calls]" % (sigs,))
             confirmed.append((sig, vs))
+        if os.environ.get("VERIF_DUMP"):   # developer aid: every raw violation, not only the first 12
+            with open(os.environ["VERIF_DUMP"], "w") as f:
+                json.dump(self.violations, f, indent=1)
         os.makedirs(os.path.join(REPLAY_DIR, self.pid), exist_ok=True)
         lines = []
         for sig, vs in known_hit:
